@@ -260,6 +260,31 @@ theorem C10_reading (pick : Pick) (s : SymFile) (h : WF s)
   rw [mapStored_eq_mapSelf pick (render s) chunks bytes hflat hb]
   exact mapSelf_render pick s h.index hm hs
 
+/-- **Agreement with the text, pointwise in the address** (strengthens `C10_reading`: `WF s → WFAt s a`
+for every `a`, see `C10_wf_implies_wfAt`). For the lookup of `a` only what concerns `a` is demanded
+(`BPS.WFAt`): the index part `WFIndex`, and — for the FUNC record whose range contains `a`, if any — line
+records ascending and non-overlapping, `a` covered by one of them or lying before all of them, and every
+inline range covering `a` ending below 2^32 and separated from the other ranges of its depth. Gaps between
+line records elsewhere in the function, anything in other functions, overlapping inline ranges away from
+`a` do not matter. The excluded addresses are exactly those of the known finding C10-line-gap (a line
+record starts at or below `a` but none covers it) and inline ranges that overlap at `a` itself. -/
+theorem C10_reading_at (pick : Pick) (s : SymFile) (a : Nat) (h : WFAt s a)
+    (hm : (tag tMODULE_ s.moduleLine).isSome = true) (hs : serializeSafe (specIndex s) = true)
+    (chunks : List (List UInt8)) (hflat : chunks.flatten = render s) :
+    ∃ ix, mapSelf pick (render s) = .ok ix ∧
+      (∀ bytes, index pick chunks = .ok bytes → mapStored pick (render s) (some bytes) = .ok ix) ∧
+      (wsLocalMap pick [] (render s) none).1 = .ok ix ∧
+      lookup (render s) ix a = readDirectly s a := by
+  refine ⟨specIndex s, mapSelf_render pick s h.index hm hs, ?_, ?_, lookup_render_at s a h⟩
+  · intro bytes hb
+    rw [mapStored_eq_mapSelf pick (render s) chunks bytes hflat hb]
+    exact mapSelf_render pick s h.index hm hs
+  · rw [(C10_wholesym_local_fresh pick [] (render s)).1]
+    exact mapSelf_render pick s h.index hm hs
+
+/-- the file-wide hypothesis of `C10_reading` implies the pointwise one at every address -/
+theorem C10_wf_implies_wfAt (s : SymFile) (h : WF s) (a : Nat) : WFAt s a := wfAt_of_wf s h a
+
 /-- The lookup never hits the out-of-range index of `symbol_entries[index]` on a map the creator built. -/
 theorem C10_reading_no_panic (s : SymFile) (h : WF s) (a : Nat) :
     lookup (render s) (specIndex s) a ≠ .panic := by
@@ -335,3 +360,62 @@ example : readDirectly C10_exampleFile 4100
       = .found ⟨4096, some 32, [102], some [⟨some [102], some [97, 46, 99], some 7⟩]⟩ ∧
     readDirectly C10_exampleFile 8197 = .found ⟨8192, none, [112], none⟩ ∧
     readDirectly C10_exampleFile 4128 = .none ∧ readDirectly C10_exampleFile 4095 = .none := by decide
+
+/-- a file with a gap between line records: `FUNC 1000 20 0 f`, `1000 8 7 0`, `1010 10 9 0` (nothing covers
+0x1008..0x100f). It is not `WF` (the line records are not contiguous) … -/
+def C10_gapFile : SymFile :=
+  { moduleLine := [77, 79, 68, 85, 76, 69, 32, 76, 105, 110, 117, 120, 32, 120, 56, 54, 95, 54, 52, 32, 66, 69, 52, 69, 57, 55, 54, 67, 51, 50, 53, 50, 52, 54, 69, 69, 57, 68, 54, 66, 55, 56, 52, 55, 65, 54, 55, 48, 66, 50, 65, 57, 48, 32, 120]
+    moduleCrs := 0
+    lines := [⟨.file 0 [97, 46, 99], 1⟩, ⟨.func false 4096 32 0 [102], 0⟩, ⟨.line 4096 8 7 0, 0⟩,
+              ⟨.line 4112 16 9 0, 0⟩, ⟨.pub false 8192 0 [112], 0⟩]
+    finalNl := true }
+
+set_option maxRecDepth 4096 in
+theorem C10_gapFile_wf : WFIndex C10_gapFile := by
+  have hn : ∀ (b : UInt8), isSpTab b = false → NoLeadSp [b] := by
+    intro b hb c r h; cases h; exact hb
+  have hn3 : NoLeadSp ([97, 46, 99] : List UInt8) := by
+    intro c r h; cases h; decide
+  constructor
+  · decide
+  · decide
+  · decide
+  · intro l hl
+    simp only [C10_gapFile, List.mem_cons, List.not_mem_nil, or_false] at hl
+    rcases hl with rfl | rfl | rfl | rfl | rfl
+    · exact ⟨by decide, ⟨by decide, by decide, hn3, by decide⟩⟩
+    · exact ⟨by decide, by decide, by decide, ⟨by decide, by decide, hn _ (by decide), by decide⟩⟩
+    · exact ⟨by decide, by decide, by decide, by decide⟩
+    · exact ⟨by decide, by decide, by decide, by decide⟩
+    · exact ⟨by decide, by decide, ⟨by decide, by decide, hn _ (by decide), by decide⟩⟩
+  · decide
+  · decide
+  · decide
+  · decide
+
+theorem C10_gapFile_not_wf : ¬ WF C10_gapFile := by
+  intro h
+  have := (h.bodies ⟨4096, some 32, [102], [.line 4096 8 7 0, .line 4112 16 9 0]⟩
+    (by simp [C10_gapFile, readSyms, List.takeWhile, Rec.isCloser]) 32 rfl).2
+  simp [linesOf, LinesOK] at this
+
+/-- … but it is well-formed at every address a line record covers, e.g. 0x1004 and 0x1015 (so
+`C10_reading_at` speaks about these lookups, `C10_reading` does not) -/
+theorem C10_gapFile_wfAt (a : Nat) (ha : (4096 ≤ a ∧ a < 4104) ∨ (4112 ≤ a ∧ a < 4128)) : WFAt C10_gapFile a := by
+  refine ⟨C10_gapFile_wf, ?_⟩
+  intro r hr size hsz _ _
+  simp only [C10_gapFile, readSyms, List.mem_cons, List.not_mem_nil, or_false] at hr
+  rcases hr with rfl | rfl
+  · refine ⟨⟨by simp [inlineesOf, List.takeWhile, Rec.isCloser], by simp [inlineesOf, List.takeWhile, Rec.isCloser]⟩, ?_, ?_⟩
+    · simp [linesOf, List.takeWhile, Rec.isCloser, LinesAsc]
+    · left
+      simp only [linesOf, List.takeWhile, Rec.isCloser, List.map, Bool.not_false, Bool.not_true]
+      rcases ha with h | h
+      · exact ⟨⟨4096, 8, 0, 7⟩, by simp, by simp; omega, by simp; omega⟩
+      · exact ⟨⟨4112, 16, 0, 9⟩, by simp, by simp; omega, by simp; omega⟩
+  · simp at hsz
+
+example : readDirectly C10_gapFile 4100
+      = .found ⟨4096, some 32, [102], some [⟨some [102], some [97, 46, 99], some 7⟩]⟩ ∧
+    readDirectly C10_gapFile 4117
+      = .found ⟨4096, some 32, [102], some [⟨some [102], some [97, 46, 99], some 9⟩]⟩ := by decide
